@@ -1,6 +1,7 @@
 (** C15 — property theorems only (proved in IO/DddmpProofs.v; model IO/Dddmp.v). *)
 From Coq Require Import List NArith ZArith Bool.
 From OxiVerif Require Import IO.Dddmp IO.DddmpProofs IO.DddmpAsciiProofs.
+From OxiVerif Require Import IO.DddmpFile IO.DddmpFileProofs IO.DddmpFileSafety IO.DddmpFileRoundtrip IO.DddmpFileWhole IO.DddmpFileNoPanic.
 Import ListNotations.
 Open Scope N_scope.
 
@@ -193,6 +194,162 @@ Print Assumptions C15_ascii_nodes_roundtrip.
 Theorem C15_ascii_example_wf : terms_ok KBDD ex_descs ex_tedges /\ awf_dag KBDD [0; 1] ex_tedges ex_adag.
 Proof. exact (conj ex_terms_ok ex_adag_wf). Qed.
 Print Assumptions C15_ascii_example_wf.
+
+(** ** (f) the whole file: header loader [load_header] = DumpHeader::load, [import_whole] =
+    DumpHeader::load + import, [print_header] = the header part of export_common
+    (model coq/IO/DddmpFile.v; package C15h) *)
+
+(** totality: the loader is a total function; its line loop needs at most one iteration per
+    input byte, any fuel above the input length gives the same result *)
+Theorem C15_header_fuel : forall f1 f2 st inp,
+  (length inp < f1)%nat -> (length inp < f2)%nat -> header_loop f1 st inp = header_loop f2 st inp.
+Proof. exact header_loop_fuel. Qed.
+Print Assumptions C15_header_fuel.
+
+(** no panic in the loader: the places where the Rust code indexes a vector or unwraps an
+    Option (support_var_order[..], varnames[id], orderedvarnames[permid],
+    non_suppvarnames.next().unwrap()) and the end of the fuel are unreachable, on every input *)
+Theorem C15_header_no_panic : forall inp, load_header inp <> HErr HInternal.
+Proof. exact load_header_no_internal. Qed.
+Print Assumptions C15_header_no_panic.
+
+(** SAFETY OF ACCEPTANCE, header: whatever bytes are accepted, the relations between the header
+    fields hold (ids strictly ascending and below .nvars, as many distinct levels below .nvars,
+    .auxids / names / root names absent or of the right length, root references non-zero and at
+    most .nnodes, support_var_order = support sorted by level) and the rest is a proper suffix *)
+Theorem C15_header_accept_wf : forall inp h rest, load_header inp = HOk (h, rest) ->
+  header_wf h /\ exists pre, inp = pre ++ rest /\ pre <> [].
+Proof. exact load_header_wf. Qed.
+Print Assumptions C15_header_accept_wf.
+
+Theorem C15_header_order_by_level : forall h, header_wf h ->
+  forall i j v w l m, nth_error (h_ids h) i = Some v -> nth_error (h_permids h) i = Some l ->
+    nth_error (h_ids h) j = Some w -> nth_error (h_permids h) j = Some m -> l < m ->
+    exists p q, (p < q)%nat /\ nth_error (h_order h) p = Some v /\ nth_error (h_order h) q = Some w.
+Proof. exact header_order_by_level. Qed.
+Print Assumptions C15_header_order_by_level.
+
+(** the loader reads back the header the exporter writes (format 2.0 and 3.0, with and without
+    variable / root / diagram names, any variable order, any support) and stops exactly after
+    the [.nodes] line *)
+Theorem C15_header_roundtrip : forall x rest, xwf x ->
+  load_header (print_header x ++ rest) = HOk (header_of x, rest).
+Proof. exact load_print_header. Qed.
+Print Assumptions C15_header_roundtrip.
+
+(** format 2.0 has no .varnames line: the names of all support variables are recovered *)
+Theorem C15_header_v2_names : forall x names, xwf x -> x_names x = Some names -> x_ver3 x = false ->
+  h_varnames (header_of x) = recover_names x names /\
+  len (recover_names x names) = x_nvars x /\
+  forall id pm, In (id, pm) (x_supp x) ->
+    nth_error (recover_names x names) (N.to_nat id) = Some (name_of names id).
+Proof. exact recover_names_support. Qed.
+Print Assumptions C15_header_v2_names.
+
+(** SAFETY OF ACCEPTANCE, node section + trailer + roots, for ARBITRARY bytes and header values:
+    the unique table is well-formed (children before parents, levels strictly increasing along
+    edges, all levels from the support), one valid edge per node ID, valid root edges, root
+    references non-zero and at most .nnodes, and .nnodes is at most the number of input bytes *)
+Theorem C15_body_accept_wf : forall k ascii vin slm nlevels nnodes rootids inp st roots,
+  import_file k ascii vin slm nlevels nnodes rootids inp = Ok (st, roots) ->
+  st_wf slm st /\
+  length (st_nodes st) = N.to_nat nnodes /\
+  Forall (edge_in (st_store st)) roots /\ length roots = length rootids /\
+  Forall (fun r => r <> 0%Z /\ Z.abs_N r <= nnodes) rootids /\
+  (N.to_nat nnodes <= length inp)%nat.
+Proof. exact import_file_safe. Qed.
+Print Assumptions C15_body_accept_wf.
+
+(** every valid edge of a well-formed table denotes a well-defined value: the big-step
+    evaluation has exactly one result, and the executable evaluation computes it with every
+    fuel above the table size (no fuel exhaustion, no dangling index) *)
+Theorem C15_accept_denotes : forall s env e, store_wf s -> edge_in s e ->
+  exists v, denotes s env e v /\ (forall v', denotes s env e v' -> v' = v) /\
+            forall fuel, (length s < fuel)%nat -> eval_edge s fuel env e = v.
+Proof. exact edge_denotes. Qed.
+Print Assumptions C15_accept_denotes.
+
+(** the same for the evaluation the correspondence run uses (incl. the ZBDD semantics) *)
+Theorem C15_eval_root_fuel : forall k s nlevels env e, store_wf s -> edge_in s e ->
+  forall fuel, (length s < fuel)%nat ->
+  eval_root k s nlevels env e =
+  match k with
+  | KZBDD => TNum (if zeval_edge s fuel env nlevels 0 e then 1 else 0)
+  | _ => eval_edge s fuel env e
+  end.
+Proof. exact eval_root_fuel. Qed.
+Print Assumptions C15_eval_root_fuel.
+
+(** SAFETY OF ACCEPTANCE of the whole importer: "never builds a wrong diagram" *)
+Theorem C15_whole_accept_safe : forall k slm nlevels inp h st roots,
+  import_whole k slm nlevels inp = WOk (h, st, roots) ->
+  header_wf h /\
+  length slm = length (h_ids h) /\
+  st_wf slm st /\
+  length (st_nodes st) = N.to_nat (h_nnodes h) /\
+  Forall (edge_in (st_store st)) roots /\ length roots = length (h_rootids h) /\
+  forall r, In r roots -> forall env,
+    exists v, denotes (st_store st) env r v /\ (forall v', denotes (st_store st) env r v' -> v' = v) /\
+              (forall fuel, (length (st_store st) < fuel)%nat -> eval_edge (st_store st) fuel env r = v).
+Proof. exact import_whole_safe. Qed.
+Print Assumptions C15_whole_accept_safe.
+
+(** NO PANIC, whole importer: on every input the result is an acceptance, one of the error
+    values that stand for an io::Error, or "wrong number of support variables passed" *)
+Theorem C15_whole_no_panic : forall k slm nlevels inp,
+  import_whole k slm nlevels inp <> WHdr HInternal /\ import_whole k slm nlevels inp <> WBody EInternal.
+Proof. exact import_whole_no_internal. Qed.
+Print Assumptions C15_whole_no_panic.
+
+(** the importer the correspondence run executes (short cut for absurd .nnodes values) accepts
+    the same inputs with the same results *)
+Theorem C15_guarded_equiv : forall k slm nlevels inp,
+  wres_equiv (import_whole k slm nlevels inp) (import_whole_guarded k slm nlevels inp).
+Proof. exact import_whole_guarded_equiv. Qed.
+Print Assumptions C15_guarded_equiv.
+
+(** whole-file round trip, binary mode (BCDD): header + node section + ".end\n" as written by
+    the exporter models is imported to exactly the exported nodes and roots *)
+Theorem C15_whole_roundtrip_bin : forall x slm nlevels l,
+  xwf x -> x_ascii x = false ->
+  x_nnodes x = N.of_nat (length (dag_of l)) ->
+  length slm = length (x_ids x) ->
+  wf_dag (N.of_nat (length slm)) l -> incr slm -> Forall (fun v => v < level_max) slm ->
+  N.of_nat (length slm) < usize_limit -> N.of_nat (length l) + 1 < usize_limit ->
+  import_whole KBCDD slm nlevels (export_whole_bin x (dag_of l))
+  = WOk (header_of x, state_of slm l (length l),
+         map (fun r => eref (Z.abs_N r) (r <? 0)%Z) (x_rootids x)).
+Proof. exact import_export_whole_bin. Qed.
+Print Assumptions C15_whole_roundtrip_bin.
+
+(** whole-file round trip, ASCII mode (BDD, BCDD, ZBDD, MTBDD) *)
+Theorem C15_whole_roundtrip_ascii : forall k x slm nlevels descs tedges l,
+  xwf x -> x_ascii x = true ->
+  x_nnodes x = N.of_nat (length descs + length l) ->
+  length slm = length (x_ids x) ->
+  terms_ok k descs tedges -> Forall (fun e => exists v, ce_ref e = RTerm v) tedges ->
+  incr slm -> Forall (fun v => v < level_max) slm ->
+  awf_dag k slm tedges l ->
+  N.of_nat (length tedges) + 1 + N.of_nat (length l) <= isize_max ->
+  N.of_nat (length slm) <= 4294967296 ->
+  Forall (aroot_ok k tedges l) (x_rootids x) ->
+  import_whole k slm nlevels (export_whole_ascii x (map ATerm descs ++ map ainner l))
+  = WOk (header_of x, astate slm tedges l (length l), map (sref tedges) (x_rootids x)).
+Proof. exact import_export_whole_ascii. Qed.
+Print Assumptions C15_whole_roundtrip_ascii.
+
+(** the hypotheses are satisfiable: a header with five variables (three in the support,
+    non-identity order, names, root names), the diagram [ex_dag], and names of printable ASCII *)
+Theorem C15_whole_example :
+  xwf ex_x /\
+  import_whole KBCDD [1; 4; 5] 6 (export_whole_bin ex_x (dag_of ex_dag))
+  = WOk (header_of ex_x, state_of [1; 4; 5] ex_dag 5, [eref 4 false; eref 5 true; eref 6 false]).
+Proof. exact (conj ex_x_wf ex_whole_bin). Qed.
+Print Assumptions C15_whole_example.
+
+Theorem C15_good_name_ascii : forall n, n <> [] -> Forall (fun b => 32 < b /\ b < 127) n -> good_name n.
+Proof. exact good_name_ascii. Qed.
+Print Assumptions C15_good_name_ascii.
 
 (* Not proved (checked on every exported file by the correspondence run instead):
    - C15_var_names_unique_partial: pairwise distinct non-empty names are written as
